@@ -48,7 +48,6 @@ from ._g2_helpers import (
     passes_before_exit,
     raises_in,
     resolves_to,
-    single_def,
 )
 
 META = {
@@ -105,6 +104,19 @@ def _principal_of_request(ctx: Ctx, fi: FunctionInfo, e: ast.expr | None) -> boo
     return isinstance(x, ast.Call) and resolves_to(ctx, fi, x, PKEY) and bool(x.args) and isinstance(x.args[0], ast.Name) and x.args[0].id == "req"
 
 
+def _pos_args(callee: FunctionInfo, call: ast.Call) -> list[ast.expr | None]:
+    """Arguments of ``call`` in the order of callee's (non-self) parameters — parameter names are never assumed."""
+    am = arg_map(callee, call)
+    out: list[ast.expr | None] = [am.get(p) for p in params_of(callee) if p not in ("self", "cls")]
+    return out + [None] * 6
+
+
+def _is_own_param(fi: FunctionInfo, e: ast.expr | None) -> bool:
+    from ._g2_helpers import binds_name
+
+    return isinstance(e, ast.Name) and e.id in params_of(fi) and not binds_name(fi, e.id)
+
+
 def _gate(ctx: Ctx, fi: FunctionInfo, what: str) -> dict:
     """Locate open call, worker-id test, registry lookup and miss test in a function that gates on a session token."""
     cfg = cfg_of(fi.node)
@@ -113,12 +125,12 @@ def _gate(ctx: Ctx, fi: FunctionInfo, what: str) -> dict:
     sid_n, sess_n = name_at(b, 0), name_at(b, 1)
     if sid_n is None or sess_n is None:
         raise AnalysisError(f"C25: cannot identify (server_id, session_id) bound from the token open in {fi.fq}")
-    am = arg_map(ctx.repo.func(OPEN_T), oc)
-    ctx.check(_current_aad(ctx, fi, am.get("aad")), "RF-TAINT", f"token-opened-under-current-identity:{what}", fi, oc, ok="aad = _compute_aad(auth of this request)",
+    a_tok, a_key, a_aad = _pos_args(ctx.repo.func(OPEN_T), oc)[:3]
+    ctx.check(_current_aad(ctx, fi, a_aad), "RF-TAINT", f"token-opened-under-current-identity:{what}", fi, oc, ok="aad = _compute_aad(auth of this request)",
               bad="the session token is not opened under the AAD of the current request's identity: another caller's token would open")
-    ctx.check(isinstance(am.get("token_key"), ast.Attribute) and am["token_key"].attr == "_token_key", "RF-TAINT", f"token-opened-with-worker-key:{what}", fi, oc,  # type: ignore[union-attr]
+    ctx.check(isinstance(a_key, ast.Attribute) and a_key.attr == "_token_key", "RF-TAINT", f"token-opened-with-worker-key:{what}", fi, oc,
               ok="opened with the configured token key", bad="the session token is not opened with the configured token key")
-    tok = am.get("token")
+    tok = a_tok
     ctx.check(tok is not None and any(isinstance(c, ast.Call) and last_attr(c) == "get_header" and c.args and isinstance(c.args[0], ast.Name) and c.args[0].id == "SESSION_HEADER" for v in [expand(fi, tok), *[bv for nm in names_in(tok) for bv in binding_values(fi, nm)]] for c in ast.walk(v)),
               "RF-TABLE", f"token-read-from-session-header:{what}", fi, oc, ok="token <- VGI-Session header", bad="the token that is verified is not the VGI-Session header of this request")
     # worker-id test: compares the token's worker id with _expected_server_id(req) (directly or via a local)
@@ -156,8 +168,8 @@ def _gate(ctx: Ctx, fi: FunctionInfo, what: str) -> dict:
     if gc is not None:
         eb = bound_from(fi, gc)
         ent_n = next(iter(eb), None)
-        ga = arg_map(ctx.repo.func(REG + ".get"), gc)
-        ctx.check(isinstance(ga.get("session_id"), ast.Name) and ga["session_id"].id == sess_n and _principal_of_request(ctx, fi, ga.get("principal_key")), "RF-TAINT", f"registry-asked-for-token-session-and-current-principal:{what}", fi, gc,  # type: ignore[union-attr]
+        g_sid, g_pk = _pos_args(ctx.repo.func(REG + ".get"), gc)[:2]
+        ctx.check(isinstance(g_sid, ast.Name) and g_sid.id == sess_n and _principal_of_request(ctx, fi, g_pk), "RF-TAINT", f"registry-asked-for-token-session-and-current-principal:{what}", fi, gc,
                   ok="registry.get(session id from the verified token, principal key of this request)",
                   bad="the registry is not asked for (the verified token's session id, the current request's principal key): a session of another caller / another id can be returned")
         if ent_n is not None:
@@ -250,9 +262,6 @@ def run(ctx: Ctx) -> None:
                   bad=f"the SessionLostError handler does not (render the error, set resp.complete, return) on every path (render={rend_ok}, both-on-every-path={both}, installs reached={leak}): the method is dispatched / the client gets no session_lost error")
         esc = EscapeAnalysis(ctx.repo, ctx.res, model)
         others = sorted({e.cls for e in esc.region(pr, tr.body) if not model.is_sub(e.cls, "SessionLostError")})
-        # region() applies handlers inside the region only; classes listed are those the try body can emit
-        emitted = sorted({e.cls for e in esc.region(pr, list(tr.body))})
-        _ = emitted
         ctx.check(not others, "RF-EXC", "gate-emits-only-SessionLostError", pr, tr, ok="explicit raises reachable from the gate (token open, worker check, registry) are all SessionLostError",
                   bad=f"the gate can emit {others}, which the session_lost handler does not cover")
     # state installed is the looked-up entry's
@@ -274,8 +283,12 @@ def run(ctx: Ctx) -> None:
     lam = [n for n in walk_scope(pr.node) if isinstance(n, ast.Lambda)]
     opens = [c for l in lam for c in ast.walk(l.body) if isinstance(c, ast.Call) and last_attr(c) == "_open_session"]
     oc_l = one(opens, "open-session callback", pr)
-    oa = arg_map(ctx.repo.func(OPEN_SESSION), oc_l)
-    ctx.check(_principal_of_request(ctx, pr, oa.get("principal_key")), "RF-TAINT", "opened-session-owned-by-current-principal", pr, oc_l, ok="a session opened in this request is registered under this request's principal key",
+    os_fi = ctx.repo.func(OPEN_SESSION)
+    ro0 = one(calls_to(ctx, os_fi, REG + ".open"), "registry.open", os_fi)
+    pk_param = _pos_args(ctx.repo.func(REG + ".open"), ro0)[2]
+    if not _is_own_param(os_fi, pk_param):
+        raise AnalysisError("C25: _open_session does not hand one of its parameters to registry.open as the principal key")
+    ctx.check(_principal_of_request(ctx, pr, arg_map(os_fi, oc_l).get(pk_param.id)), "RF-TAINT", "opened-session-owned-by-current-principal", pr, oc_l, ok="a session opened in this request is registered under this request's principal key",
               bad="a session opened in this request is registered under a principal key that is not the current caller's")
 
     # ================================================================ token codec
@@ -283,7 +296,7 @@ def run(ctx: Ctx) -> None:
     ocfg = cfg_of(ot.node)
     ob = one(calls_to(ctx, ot, CR + ":open_bytes"), "crypto.open_bytes", ot)
     oam = arg_map(ctx.repo.func(CR + ":open_bytes"), ob)
-    ctx.check(isinstance(oam.get("aad"), ast.Name) and oam["aad"].id == "aad" and isinstance(oam.get("key"), ast.Name) and oam["key"].id == "token_key", "RF-TAINT", "codec-open-verifies-caller-aad-and-key", ot, ob,  # type: ignore[union-attr]
+    ctx.check(_is_own_param(ot, oam.get("aad")) and _is_own_param(ot, oam.get("key")) and txt(oam.get("aad")) != txt(oam.get("key")), "RF-TAINT", "codec-open-verifies-caller-aad-and-key", ot, ob,  # type: ignore[arg-type]
               ok="open_bytes verifies under the caller's aad and key", bad="the session token is not verified under the caller-supplied aad/key")
     okp, wit = passes_before_exit(ocfg, [ob])
     ctx.check(okp, "RF-DOM", "codec-authenticates-before-return", ot, ob, ok="no return without a successful AEAD open", bad="token fields are returned without AEAD verification", path=ocfg.describe_path(wit, ot.module.relpath))
@@ -315,10 +328,11 @@ def run(ctx: Ctx) -> None:
     st_f = ctx.fn(SEAL_T)
     sb = one(calls_to(ctx, st_f, CR + ":seal_bytes"), "crypto.seal_bytes", st_f)
     sam = arg_map(ctx.repo.func(CR + ":seal_bytes"), sb)
-    ctx.check(isinstance(sam.get("aad"), ast.Name) and sam["aad"].id == "aad" and isinstance(sam.get("key"), ast.Name) and sam["key"].id == "token_key", "RF-TAINT", "codec-seal-binds-caller-aad-and-key", st_f, sb,  # type: ignore[union-attr]
+    ctx.check(_is_own_param(st_f, sam.get("aad")) and _is_own_param(st_f, sam.get("key")) and txt(sam.get("aad")) != txt(sam.get("key")), "RF-TAINT", "codec-seal-binds-caller-aad-and-key", st_f, sb,  # type: ignore[arg-type]
               ok="sealed under the caller's aad and key", bad="the session token is not sealed under the caller-supplied aad/key")
     pl = sam.get("payload")
-    ctx.check(pl is not None and derives_from(st_f, pl, {"server_id"}) and derives_from(st_f, pl, {"session_id"}), "RF-TAINT", "codec-seals-worker-and-session-id", st_f, sb, ok="worker id and session id are inside the sealed payload",
+    sp = [p for p in params_of(st_f)]
+    ctx.check(pl is not None and len(sp) >= 2 and derives_from(st_f, pl, {sp[0]}) and derives_from(st_f, pl, {sp[1]}), "RF-TAINT", "codec-seals-worker-and-session-id", st_f, sb, ok="worker id and session id are inside the sealed payload",
               bad="worker id / session id are not part of the sealed payload")
     sv, ov = sam.get("version"), oam.get("version")
     a = const_int(ctx, st_f.module, sv) if sv is not None else 1
@@ -331,15 +345,18 @@ def run(ctx: Ctx) -> None:
     sa = arg_map(st_f, sc)
     ro = one(calls_to(ctx, os_f, REG + ".open"), "registry.open", os_f)
     rb = bound_from(os_f, ro)
-    ctx.check(_current_aad(ctx, os_f, sa.get("aad")) and isinstance(sa.get("token_key"), ast.Attribute) and sa["token_key"].attr == "_token_key", "RF-TAINT", "mint-binds-current-identity", os_f, sc,  # type: ignore[union-attr]
+    s_aad_p = sam["aad"].id if _is_own_param(st_f, sam.get("aad")) else None  # type: ignore[union-attr]
+    s_key_p = sam["key"].id if _is_own_param(st_f, sam.get("key")) else None  # type: ignore[union-attr]
+    m_key = sa.get(s_key_p) if s_key_p else None
+    ctx.check(s_aad_p is not None and _current_aad(ctx, os_f, sa.get(s_aad_p)) and isinstance(m_key, ast.Attribute) and m_key.attr == "_token_key", "RF-TAINT", "mint-binds-current-identity", os_f, sc,
               ok="the token is sealed for the identity of the request that opened the session", bad="the session token is not sealed under the opening request's identity / the worker key")
-    sid_e = sa.get("server_id")
+    sid_e = sa.get(sp[0]) if sp else None
     ctx.check(isinstance(sid_e, ast.Call) and resolves_to(ctx, os_f, sid_e, EXPECTED), "RF-TAINT", "mint-records-this-worker", os_f, sc, ok="server_id sealed = this worker's id (same accessor the gate compares with)",
               bad="the worker id sealed into the token is not the one the gate compares against")
-    ctx.check(isinstance(sa.get("session_id"), ast.Name) and sa["session_id"].id == name_at(rb, 0), "RF-TAINT", "mint-seals-registered-session-id", os_f, sc, ok="the sealed session id is the one the registry just issued",  # type: ignore[union-attr]
+    ssn = sa.get(sp[1]) if len(sp) > 1 else None
+    ctx.check(isinstance(ssn, ast.Name) and ssn.id == name_at(rb, 0), "RF-TAINT", "mint-seals-registered-session-id", os_f, sc, ok="the sealed session id is the one the registry just issued",
               bad="the sealed session id is not the id under which the state was registered")
-    roa = arg_map(ctx.repo.func(REG + ".open"), ro)
-    ctx.check(isinstance(roa.get("principal_key"), ast.Name) and roa["principal_key"].id == "principal_key" and "principal_key" in params_of(os_f), "RF-TAINT", "mint-registers-under-given-principal", os_f, ro,  # type: ignore[union-attr]
+    ctx.check(_is_own_param(os_f, _pos_args(ctx.repo.func(REG + ".open"), ro)[2]), "RF-TAINT", "mint-registers-under-given-principal", os_f, ro,
               ok="registered under the principal key handed in by process_request", bad="the session is registered under a different principal key")
 
     # ================================================================ registry
